@@ -62,6 +62,8 @@ var c07Mutants = []Mutant{
 		Edits: []Edit{{File: "transport/transport.go", Old: "\tt.implLock.Lock()\n\tdefer t.implLock.Unlock()\n\n\treturn t.Impl.Read(n)", New: "\tt.implLock.Lock()\n\n\tb, err := t.Impl.Read(n)\n\tif err != nil {\n\t\treturn nil, err\n\t}\n\n\tt.implLock.Unlock()\n\n\treturn b, nil"}}},
 	{ID: "C07-eof-chain-cut", Desc: "standard transport wraps read errors with %s", Rule: "C07/eof-chain",
 		Edits: []Edit{{File: "transport/standard.go", Old: "\tn, err := t.reader.Read(b)\n\tif err != nil {\n\t\treturn nil, err\n\t}", New: "\tn, err := t.reader.Read(b)\n\tif err != nil {\n\t\treturn nil, fmt.Errorf(\"%w: read failed: %s\", util.ErrConnectionError, err)\n\t}"}}},
+	{ID: "C07-close-only-when-alive", Desc: "Transport.Close returns at once when the implementation reports it is not alive", Rule: "C07/close-reaches-transport",
+		Edits: []Edit{{File: "transport/transport.go", Old: "func (t *Transport) Close(force bool) error {\n", New: "func (t *Transport) Close(force bool) error {\n\tif !t.Impl.IsAlive() {\n\t\treturn nil\n\t}\n\n"}}},
 	{ID: "C07-close-skips-transport", Desc: "Channel.Close returns early when the reader already exited", Rule: "C07/close-reaches-transport",
 		Edits: []Edit{{File: "channel/channel.go", Old: "\t} else {\n\t\tclose(ch)\n\t}\n", New: "\t} else {\n\t\tclose(ch)\n\n\t\treturn nil\n\t}\n"}}},
 	{ID: "C07-new-shared-counter", Desc: "reader counts bytes in a plain field read by an API method", Rule: "C07/L",
@@ -1058,6 +1060,29 @@ func checkCloseReachesTransport(c *Ctx, r *Report) {
 		} else {
 			r.OK(rule, d.name, c.Pos(d.fn.Pos()), "on every path")
 		}
+	}
+	// 6. Transport.Close -> Implementation.Close on every path (whatever the implementation says about its liveness:
+	// a peer that went away leaves a descriptor / child process behind that only Close releases)
+	implClose := func(in ssa.Instruction) bool {
+		var cc *ssa.CallCommon
+		switch x := in.(type) {
+		case *ssa.Call:
+			cc = &x.Call
+		case *ssa.Defer:
+			cc = &x.Call
+		default:
+			return false
+		}
+		if !cc.IsInvoke() || cc.Method.Name() != "Close" {
+			return false
+		}
+		n, ok := cc.Value.Type().(*types.Named)
+		return ok && n.Obj().Name() == "Implementation" && n.Obj().Pkg() != nil && strings.HasSuffix(n.Obj().Pkg().Path(), "/transport")
+	}
+	if ret, rr := mustCallBeforeReturn(c, tClose, implClose); ret != nil {
+		r.Bad(rule, "Transport.Close -> Implementation.Close", c.Pos(ret.Pos()), "Transport.Close can return without closing the implementation: the descriptor / child process / socket of a connection whose peer went away is never released, and a reader parked in its Read is never woken", rr.witness(c, ret)...)
+	} else {
+		r.OK(rule, "Transport.Close -> Implementation.Close", c.Pos(tClose.Pos()), "every return is preceded by Implementation.Close")
 	}
 }
 
